@@ -732,8 +732,15 @@ class Context:
         def parse_fn(*args):
             return json_parse(to_string(args[0] if args else UNDEFINED))
 
+        def call_function(fn, this_value, fn_args):
+            vm = ctx._current_vm
+            if vm is None:
+                return ctx._call_function(fn, fn_args)
+            return vm._call_callback(fn, fn_args, this_value)
+
         def stringify_fn(*args):
-            text = json_stringify(args[0] if args else UNDEFINED)
+            value, replacer, space = (list(args) + [UNDEFINED] * 3)[:3]
+            text = json_stringify(value, replacer, space, call_function)
             return UNDEFINED if text is None else text
 
         json_obj.set("parse", parse_fn)
